@@ -6,7 +6,7 @@ CHECKS = {
  # id: (category, technique, text, note, design_ref)
  "C05": ("model_checking", "TLA+ spec (EzObject/EzApi) model-checked by TLC on MC_Shape; every TLC transition replayed on the real object (state equality)",
          "TLC checks the Agreement invariants in every reachable state of the bounded instance (all interleavings of declare/rate/frame/column calls); every transition of that instance is then executed on the real object and the full projected state compared, so the code is shown to follow the specification that satisfies the property.",
-         "bounded instance (quick: 2 points, 1 channel, 2 frames; thorough: 3 points, 3 frames); rates from an exact table; spec transcribed by hand from src/ezc3d.cpp; g++ -O1 build", "6/C05"),
+         "bounded instance (quick: 2 points, 1 channel, 2 frames, TLC explores and checks every transition and a seeded random quarter of them is replayed - each with its whole path from Init - plus 8 random histories validated by EzTrace.tla; thorough: 3 points, 3 frames, every transition replayed, 64 random histories); rates from an exact table; spec transcribed by hand from src/ezc3d.cpp; g++ -O1 build", "6/C05"),
  "C07": ("model_checking", "TLA+ outcome table (FrameOutcome/PointColsOutcome/AnalogColsOutcome) + ConformingAccepted invariant in TLC; outcome class of every transition compared on the real object",
          "The documented refusal table is an operator of the specification; TLC checks the converse clause (conforming frames are accepted) as an invariant on all reachable states, and the exception class of every (state, call) pair of the bounded instance is compared with the real call.",
          "same bounds as C05; exception classes reduced most-derived-first as binding/ezc3d.i does", "6/C07"),
@@ -16,10 +16,10 @@ CHECKS = {
 
  "C06": ("model_checking", "TLC action properties FrameStoreOK/ColumnsOK on MC_Frames (payload tags) + replay of every transition comparing all frames",
          "Append / replace / extend and the column adders are action properties checked by TLC on every transition of the bounded instance (every data-set size up to the bound, every target index incl. count+1, distinguishable payloads); every transition is replayed on the real object and all stored frames are compared bit for bit.",
-         "quick: up to 2 frames, thorough: up to 3 frames, index up to count+1; 2 payload tags; one declared shape family (1-2 points, 1 channel, 2 sub-frames)", "6/C06"),
+         "three configurations of MC_Frames (caller objects; gaps + in-place edits; point and channel columns), up to 3 frames, index up to count+2; quick replays a seeded random 1/2 - 1/6 sample of the transitions TLC explored (each with its whole path), thorough all of them; one declared shape family (1-2 points, 1-2 channels, 2 sub-frames)", "6/C06"),
  "C08": ("model_checking", "value-semantics TLA+ model with caller-side frame objects (CallerNew/CallerMutate/AddFrame by reference/EditStored) checked by TLC (CallerIndependent) + replay on real Frame objects mutated in place",
          "The specification has value semantics: caller-side edits and in-place edits of one stored frame change nothing else. TLC explores every interleaving of handing over, mutating and re-submitting a caller frame object with appends, indexed stores, in-place edits and column adders; each transition is replayed with a real, long-lived Frame object mutated through the public non-const accessors.",
-         "one caller frame object, 2 payload tags, up to 2 (quick) / 3 (thorough) frames", "6/C08"),
+         "one caller frame object, 2 payload tags; same three configurations and sampling as C06", "6/C08"),
  "C09": ("model_checking", "TLC action properties ParamEditOK/LockOK + invariant ShapeRule on MC_Params; every (type, #values, dimension) triple of the alphabet replayed from every reachable state",
          "Find-or-create group, replace-in-place-or-append, lock toggles and the typed setters are checked as action properties on all transitions; the shape predicate is enumerated over all (type, value count, dimension argument) triples of the bounded alphabet and each becomes an implementation test per reachable state.",
          "quick: 0..2 values x 9 dimension arguments x 3 types; thorough: 0..3 values x 17 dimension arguments (up to 8 entries); byte type has no setter in the API (covered through files in C02/C04)", "6/C09"),
